@@ -271,7 +271,30 @@ def run(ctx):
             stale = fv2 is None or any(sp.sympify(fv2).has(a) for a in old) or sp.sympify(fv2).has(T1)
             ctx.check(not stale, "R4", "decay_time after a second calculate_activation uses the new activities only",
                       f"f after re-activation is {_s(fv2)}", site)
-    ctx.floor("R1", 7); ctx.floor("R2", 7); ctx.floor("R3", 14); ctx.floor("R4", 10); ctx.floor("R5", 7)
+            # ... also when only the abundance function differs (same environment object, same exposure, same rest times)
+            from ptstat.symval import Builtin as _B
+            envx = I.new_obj("env_shared")
+            NEW2 = [sp.Function("Cct1", positive=True), sp.Function("Cct2", positive=True)]
+            NEW3 = [sp.Function("Dct1", positive=True), sp.Function("Dct2", positive=True)]
+            fv3 = None
+            try:
+                ACT[:] = NEW2
+                del WEIGHTS[:]
+                I.call(I.getattr(smp, "calculate_activation"), [envx], {"exposure": P("t_exp3"), "rest_times": [T3]})
+                I.call(I.getattr(smp, "decay_time"), [target], {})
+                ACT[:] = NEW3
+                cap.clear()
+                del WEIGHTS[:]
+                I.call(I.getattr(smp, "calculate_activation"), [envx],
+                       {"exposure": P("t_exp3"), "rest_times": [T3], "abundance": _B("other_abundance", lambda iso_: sp.Symbol("ab_other", positive=True))})
+                I.call(I.getattr(smp, "decay_time"), [target], {})
+                fv3 = I.call(cap["f"], [t], {}) if "f" in cap else None
+            finally:
+                ACT[:] = old
+            stale3 = fv3 is None or any(sp.sympify(fv3).has(a) for a in NEW2 + old)
+            ctx.check(not stale3, "R4", "decay_time after re-activation with another abundance function (same environment and exposure) uses the new activities",
+                      "decay_time answers without solving for the new activation" if fv3 is None else f"f after re-activation is {_s(fv3)}", site)
+    ctx.floor("R1", 7); ctx.floor("R2", 7); ctx.floor("R3", 14); ctx.floor("R4", 11); ctx.floor("R5", 7)
 
     # a product whose activity is exactly zero (a route that underflows at low fluence, e.g. Te-130 -> Te-132 by double
     # capture): it needs no time and must not disturb the answer for the others
@@ -291,6 +314,28 @@ def run(ctx):
             bad_init = init_ is None or sp.sympify(cons(init_)).has(sp.zoo, sp.nan, sp.oo, -sp.oo)
             ctx.check(not bad_init, "R3", "the start value handed to the root finder is a finite time when a product has zero activity",
                       f"start value {_s(init_, 120)}", site)
+    # the reported table is the caller's: converting it in place (uCi -> Bq) after the activation must not change what
+    # decay_time solves (for rest-time lists that start with 0 and for lists that do not)
+    for rests, facts_ in (([sp.Integer(0), T2], [T2]), ([T1, T2], [T1, T2 - T1])):
+        w, smp, cap, tr, ftr = setup(ctx, rests, facts_)
+        I = w.I
+        rr_ = raises(lambda: I.call(I.getattr(smp, "decay_time"), [target], {}))
+        if rr_ is not None or "f" not in cap:
+            continue
+        before_ = cons(I.call(cap["f"], [t], {}))
+        table_ = I.getattr(smp, "activity")
+        if isinstance(table_, dict):
+            for row_ in table_.values():
+                if isinstance(row_, list):
+                    row_[:] = [37000 * x_ for x_ in row_]
+        cap.clear()
+        rr_ = raises(lambda: I.call(I.getattr(smp, "decay_time"), [target], {}))
+        after_ = cons(I.call(cap["f"], [t], {})) if rr_ is None and "f" in cap else None
+        if after_ is None:
+            ctx.fail("R4", f"decay_time after the reported activity table was rescaled in place (rest times {rests})",
+                     f"{'raises ' + str(rr_) if rr_ else 'answers without solving'}", site)
+        else:
+            eq(ctx, "R4", f"decay_time after the reported activity table was rescaled in place (rest times {rests}): the same f", after_, before_, site)
     # no activation: documented 0
     w, smp, cap, tr, ftr = setup(ctx, [T1], [], activate=False)
     r = w.I.call(w.I.getattr(smp, "decay_time"), [target], {})
